@@ -56,6 +56,7 @@ def structures(tier):
     for top in itertools.product((False, True), repeat=3):
         sts.append({'kind': 'dm', 'top': list(top), 'full': tier == 'thorough'})
     sts.append({'kind': 'dm2'})
+    sts.append({'kind': 'v3-defaults'})
     for first in ('same-indices', 'other-indices', 'none'):
         sts.append({'kind': 'two-tables', 'first': first})
     sts.append({'kind': 'date'})
@@ -133,6 +134,34 @@ def _popcount(bits):
     return tot
 
 
+def run_v3_defaults(ctx, st):
+    """log records read from a version-3 dump: a record that names no process keeps the defaults, whatever the thread map
+    or earlier records of the same thread say about its thread"""
+    from oracle import v3 as V
+    from pykdebugparser.pykdebugparser import PyKdebugParser
+    from vxlib.symx.stream import make_stream
+    T1, T2 = 0x501, 0x777
+    logs = {'Events': [V.mandatory(1, T1, p=0, pid=V.LOG_PID), V.mandatory(4, T1), V.mandatory(4, T2), V.mandatory(1, T2, pid=5)]}
+    data = V.v3_file(threads=[(T2, 70, b'locationd')], chunks=[[bytes(64)]], blocks=[('strings', V.sample_strings()), ('logs', logs)])
+    p = PyKdebugParser()
+    try:
+        out = list(p.os_log_events(make_stream(data)))
+    except Exception as e:      # noqa
+        __import__('vxlib.symx.core', fromlist=['x']).proxy_rejected(e)
+        ctx.check('C16/v3/decodes', False, '%s: %s' % (type(e).__name__, e)); ctx.reach(); return
+    L = 'C16/v3'
+    ctx.check(L + '/all-records', len(out) == 4, '%d records' % len(out))
+    if len(out) == 4:
+        ctx.check(L + '/named-process', out[0].process == V.LOG_PROCESS_NAME and out[0].process_identifier == V.LOG_PID)
+        ctx.check(L + '/absent-process-after-a-named-record-of-the-thread', out[1].process == '' and out[1].process_identifier == 0,
+                  'process %r pid %r' % (out[1].process, out[1].process_identifier))
+        ctx.check(L + '/absent-process-of-a-thread-in-the-thread-map', out[2].process == '' and out[2].process_identifier == 0,
+                  'process %r pid %r' % (out[2].process, out[2].process_identifier))
+        ctx.check(L + '/pid-without-name', out[3].process == '' and out[3].process_identifier == 5,
+                  'process %r pid %r' % (out[3].process, out[3].process_identifier))
+    ctx.reach()
+
+
 def run_two_tables(ctx, st):
     """two dumps in one process: a record of the second dump is decoded against the second dump's string table, whatever
     was decoded against another table before (same string indices, other indices, or nothing)"""
@@ -184,6 +213,8 @@ def run_two_tables(ctx, st):
 def run(ctx, st):
     if st['kind'] == 'two-tables':
         return run_two_tables(ctx, st)
+    if st['kind'] == 'v3-defaults':
+        return run_v3_defaults(ctx, st)
     return {'presence': run_presence, 'ti': run_ti, 'dm': run_dm, 'dm2': run_dm2, 'date': run_date}[st['kind']](ctx, st)
 
 
@@ -410,6 +441,19 @@ def _check_segment(ctx, L, got, seg_vals):
             has = {k: bool(ad.present[k]) for k in SEG_A}
             for k, f in (('a', 'availability'), ('p', 'privacy'), ('c', 'category')):
                 ctx.check(L + '/arg/' + f, (arg.get(f) == ad.values[k]) if has[k] else f not in arg)
+            # scalar details belong to category 1; the object representation is shown for an available argument (availability
+            # absent or 3): through the string index for category 2, as the raw value otherwise
+            scalar = has['c'] and bool(ad.values['c'] == 1)
+            for k, f in (('sc', 'scalar_category'), ('st', 'scalar_type')):
+                ctx.check(L + '/arg/' + f, (arg.get(f) == ad.values[k]) if (scalar and has[k]) else f not in arg,
+                          '%s is %r' % (f, arg.get(f, '<absent>')))
+            available = (not has['a']) or bool(ad.values['a'] == 3)
+            if available and has['or']:
+                want = STRINGS[115] if (has['c'] and bool(ad.values['c'] == 2)) else 115
+                ctx.check(L + '/arg/object_representation', arg.get('object_representation', None) == want,
+                          'object_representation is %r' % (arg.get('object_representation', '<absent>'),))
+            else:
+                ctx.check(L + '/arg/object_representation', 'object_representation' not in arg)
     else:
         ctx.check(L + '/arg', 'arg' not in got)
 
